@@ -3822,6 +3822,14 @@ func (r *Resolver) processDelegation(ctx context.Context, rs *resolveState, resp
 	// than restarting the lease (GHSA-mqfw-f48p-2vc8).
 	observedAt := time.Now()
 	leaseDeadline := observedAt.Add(time.Duration(nsInfo.nsTTL) * time.Second)
+	// The delegation table caps every entry at its 12 h ceiling (SetUntil).
+	// The same cap belongs on the lease handed to everything learned through
+	// the delegation: an uncapped referral TTL (two days is common) bound the
+	// answers to +48 h while the delegation itself was gone after 12 h, so
+	// they were served, with their long TTLs, after the lease had ended.
+	if ceiling := observedAt.Add(authority.MaxLease); leaseDeadline.After(ceiling) {
+		leaseDeadline = ceiling
+	}
 
 	// DNSSEC validation for delegation
 	newParentDS, err := r.validateDelegation(ctx, rs.req, resp, q, rs.parentDS, rs.servers.Zone)
